@@ -7,6 +7,7 @@ CONSTANTS
   Alpha <- AlphaPathsQ
   JitSet <- J0
   MaxDepth = 12
+  ItemShapeTolerant = TRUE
 INVARIANT TypeOK
 INVARIANT PropertyHolds
 INVARIANT ReactionAsDocumented
